@@ -100,8 +100,8 @@ CHECKS = {
         ref="6/C20",
     ),
     "C13": dict(
-        text="Partial (transforms and configuration). The real save / load code (BaseTransform.save/load, _save_state/_load_state, config_dict, recursively_save_to_h5_file, load_from_h5_file, encode/decode_for_hdf5, encode/decode_dtype, Aspire.save_config/config_dict/resume_from_file/_build_aspire_from_file) runs against a hybrid container -- a real in-memory h5py file for every concrete value, name, group, attribute and string, a side table for array payloads with symbolic cells. For CompositeTransform with every combination of periodic / logit / probit / affine parts, FlowTransform and AffineTransform, with symbolic bounds lower<upper, symbolic fitted affine state and symbolic evaluation points (inside the bounds; for the bounded parts also anywhere between the bounds, clipping margin included): the reloaded transform has the saved settings (parameters, periodic parameters, bounded kind, a non-default eps, precision, namespace), the saved bounds and fitted state, and reproduces the SAME forward and inverse map (value and log-Jacobian). For Aspire: the instance rebuilt by the real resume_from_file from what save_config wrote has the saved settings (dims, parameters, periodic parameters, bounds for all values, bounded options, flow back-end and flow options, eps, namespace, precision).",
-        note="NOT decided: sample sets and histories (their save path converts to NumPy first, which realises symbolic arrays; their dict and pickle round trips are C16), flows and neural-network weights (torch / equinox serialisation), what h5py does to concrete array payloads (float width on disk, encodings) -- those need concrete I/O runs, a different technique. Stub: h5py returns a float array as stored. d=2 (thorough d=3), batch 1-2.",
+        text="Partial (everything but flows). The real save / load code of the transforms, the sample classes, the histories and the configuration (save/load/_save_state/_load_state/config_dict, BaseSamples.save/load/_encode_for_hdf5/_decode_from_dictionary/to_dict/from_dict, SMCHistory.save/load, recursively_save_to_h5_file, load_from_h5_file, encode/decode_for_hdf5, encode/decode_dtype, encode/decode_samples, Aspire.save_config/config_dict/resume_from_file/_build_aspire_from_file) runs against a hybrid container -- a real in-memory h5py file for every concrete value, name, group, attribute and string, a side table for array payloads with symbolic cells. Transforms (CompositeTransform with every combination of periodic / logit / probit / affine parts, FlowTransform, AffineTransform; symbolic bounds lower<upper, symbolic fitted state, non-default eps, float32, parameter names in non-alphabetical order): saved settings, bounds and fitted state, and the SAME forward and inverse map (value and log-Jacobian) at symbolic points inside the bounds and, for the bounded parts, anywhere between the bounds. Sample sets (three classes, flat and nested layout, with/without optional fields): every cell of every field, parameter names, namespace, precision, temperature, evidence. SMC histories: every series in order and every stored population, also with 12 populations. Aspire: the instance rebuilt by resume_from_file has the saved settings (dims, parameters, periodic parameters, bounds for all values, bounded options, flow back-end and flow options, eps, namespace, precision).",
+        note="NOT decided: flows and neural-network weights (torch / equinox serialisation) and what h5py does to concrete array payloads (float width on disk, encodings) -- those need concrete I/O runs, a different technique. Stubs: h5py returns a float array as stored; the sample classes' conversion to NumPy before saving is the identity on symbolic arrays (C15's matter). d=2 (thorough d=3), N<=2 rows, <=12 populations.",
         ref="6/C13, 12.7",
     ),
     "C15": dict(
